@@ -171,6 +171,9 @@ def _prod_run(params, values):
         if not isinstance(v, str):
             recs.append({"key": "url-attr-missing", "where": kind})
             continue
+        if v == "":
+            # the written destination is never empty here: an empty attribute means the destination was dropped, not kept as text
+            recs.append({"key": "rejected-construct-dropped", "where": kind, "detail": "link/image emitted with an empty URL"})
         url_records(v, kind, recs)
         if (kind + '="' + escapeHtml(v) + '"') not in html:
             recs.append({"key": "url-token-html-mismatch", "where": kind})
